@@ -15,11 +15,13 @@ import (
 	"fmt"
 	"os"
 	"os/exec"
+	"os/signal"
 	"path/filepath"
 	"sort"
 	"strconv"
 	"strings"
 	"sync"
+	"syscall"
 	"time"
 )
 
@@ -31,6 +33,7 @@ var repo = func() string {
 	}
 	return "/repo"
 }()
+
 // verif is the framework root: the parent of the directory holding this executable (so that a
 // snapshot of /verif run elsewhere uses its own files), /verif as a fallback.
 var verif = func() string {
@@ -46,6 +49,7 @@ var verif = func() string {
 	}
 	return "/verif"
 }()
+
 const goBin = "/opt/veriftools/go1.26.8/bin/go"
 
 type engine struct {
@@ -83,8 +87,15 @@ type propDef struct {
 	Components  map[string]string
 }
 
+// scratchToRemove is the scratch directory of this invocation (removed on every exit path,
+// including fatal and termination by a signal).
+var scratchToRemove string
+
 func fatal(code int, f string, a ...any) {
 	fmt.Fprintf(os.Stderr, "verifcheck: "+f+"\n", a...)
+	if scratchToRemove != "" {
+		os.RemoveAll(scratchToRemove)
+	}
 	os.Exit(code)
 }
 
@@ -136,8 +147,8 @@ func (b *build) buildEngine(e engine) (string, error) {
 		return "", fmt.Errorf("simbuild: %v", err)
 	}
 	var rep struct {
-		Overlay map[string]string                    `json:"overlay"`
-		Counts  map[string]map[string]int            `json:"counts"`
+		Overlay map[string]string         `json:"overlay"`
+		Counts  map[string]map[string]int `json:"counts"`
 	}
 	if err := json.Unmarshal(out, &rep); err != nil {
 		return "", fmt.Errorf("simbuild output: %v", err)
@@ -343,7 +354,15 @@ func main() {
 		fatal(2, "%v", err)
 	}
 	if !*keep {
+		scratchToRemove = scratch
 		defer os.RemoveAll(scratch)
+		sigc := make(chan os.Signal, 1)
+		signal.Notify(sigc, os.Interrupt, syscall.SIGTERM)
+		go func() {
+			<-sigc
+			os.RemoveAll(scratch)
+			os.Exit(2)
+		}()
 	} else {
 		fmt.Fprintln(os.Stderr, "scratch:", scratch)
 	}
@@ -901,24 +920,24 @@ func doCheck(b *build, id, tier string, seed int64, workers int, scale float64) 
 		"property_id": id, "tier": tier, "seed": seed, "level": pd.Level, "wall_s": wall, "violations": nviol,
 		"assumptions": pd.Assumptions,
 		"coverage": map[string]any{
-			"evaluations":          a.runs,
-			"distinct_nontrivial":  distinct,
-			"rule":                 pd.Rule + " A run is non-trivial when it reached a quiescent state in which at least one object of interest existed (an assigned/announced address, an established session, an applied configuration); runs are distinct when the hash of their sequence of scheduler events (actor, event kind, object) differs.",
-			"samples":              samples,
-			"runs_per_hour":        float64(a.runs) / wall * 3600,
-			"simulated_time_s":     a.simTime,
-			"scheduler_steps":      a.steps,
-			"choices_drawn":        a.draws,
-			"faults_fired":         faults,
-			"reach_probes":         probes,
-			"reach_probes_at_zero": zeroProbes,
-			"counters":             other,
-			"batches":              batchInfo,
-			"components":           pd.Components,
-			"rewrite_sites":        b.counts,
-			"known_findings_seen":  len(seenKnown),
+			"evaluations":             a.runs,
+			"distinct_nontrivial":     distinct,
+			"rule":                    pd.Rule + " A run is non-trivial when it reached a quiescent state in which at least one object of interest existed (an assigned/announced address, an established session, an applied configuration); runs are distinct when the hash of their sequence of scheduler events (actor, event kind, object) differs.",
+			"samples":                 samples,
+			"runs_per_hour":           float64(a.runs) / wall * 3600,
+			"simulated_time_s":        a.simTime,
+			"scheduler_steps":         a.steps,
+			"choices_drawn":           a.draws,
+			"faults_fired":            faults,
+			"reach_probes":            probes,
+			"reach_probes_at_zero":    zeroProbes,
+			"counters":                other,
+			"batches":                 batchInfo,
+			"components":              pd.Components,
+			"rewrite_sites":           b.counts,
+			"known_findings_seen":     len(seenKnown),
 			"known_findings_replayed": knownReplayed,
-			"worker_cpu_s":         a.cpuS,
+			"worker_cpu_s":            a.cpuS,
 		},
 	}
 	eb, _ := json.MarshalIndent(ev, "", " ")
